@@ -2049,7 +2049,14 @@ getattr_delegate(trait_object *trait, has_traits_object *obj, PyObject *name)
         || ((delegate = PyDict_GetItem(dict, trait->delegate_name)) == NULL)) {
         // Handle the case when the delegate is not in the instance dictionary
         // (could be a method that returns the real delegate):
+        /* The delegate attribute may itself be delegated (in the extreme,
+           to itself: c = DelegatesTo('c')); that recursion never enters the
+           interpreter loop either. */
+        if (Py_EnterRecursiveCall(" while getting the delegate of a trait")) {
+            return NULL;
+        }
         delegate = has_traits_getattro(obj, trait->delegate_name);
+        Py_LeaveRecursiveCall();
         if (delegate == NULL) {
             return NULL;
         }
